@@ -11,7 +11,8 @@ from vlib import sx
 
 
 class SymTab:
-    """symbol names <-> numbers; names not of the form s<N> are numbered by first occurrence from 1000"""
+    """symbol names <-> numbers; s<N> <-> N; a DECIMAL name <d> <-> 3000+d (symbols named like the ids the deserialiser hands out:
+    K domain values become `Symbol(str(value))`); other names are numbered by first occurrence from 1000"""
 
     def __init__(self):
         self.by_name = {}
@@ -19,6 +20,8 @@ class SymTab:
     def num(self, name):
         if name.startswith('s') and name[1:].isdigit():
             return int(name[1:])
+        if name.isdigit():
+            return 3000 + int(name)
         if name not in self.by_name:
             self.by_name[name] = 1000 + len(self.by_name)
         return self.by_name[name]
@@ -32,7 +35,7 @@ def to_py(t):
     if k == 'svar':
         return SVar(t[1])
     if k == 'sym':
-        return Symbol(f's{t[1]}')
+        return Symbol(str(t[1] - 3000) if 3000 <= t[1] < 4000 else f's{t[1]}')
     if k == 'imp':
         return Implies(to_py(t[1]), to_py(t[2]))
     if k == 'app':
